@@ -248,6 +248,7 @@ type world struct {
 	comp  [][]wazero.CompiledModule // [runtime][module]
 	cache wazero.CompilationCache
 	base  wazero.ModuleConfig
+	bare  wazero.ModuleConfig
 	sc    *scenario
 	root  string
 }
@@ -286,6 +287,7 @@ func newWorld(sc *scenario, root string, nrt int, rtKind string) *world {
 	// ONE base configuration value, reused for every instance of the scenario
 	w.base = wazero.NewModuleConfig().WithName("").
 		WithFSConfig(wazero.NewFSConfig().WithReadOnlyDirMount(filepath.Join(root, "ro"), "/"))
+	w.bare = wazero.NewModuleConfig().WithName("")
 	return w
 }
 
@@ -303,6 +305,8 @@ func (w *world) instantiate(k int, tag string) *live {
 	l := &live{spec: sc.Specs[sc.ModOf[k]]}
 	cfg := w.base
 	switch sc.Cfg {
+	case "bare":
+		cfg = w.bare
 	case "derived":
 		l.out = &lockedBuf{}
 		cfg = w.base.WithStdout(l.out).WithStdin(strings.NewReader(stdinContent))
@@ -537,7 +541,9 @@ func orDash(s string) string {
 func genScenario(r *rand.Rand, id int, engine string, nops int) *scenario {
 	sc := &scenario{ID: id, Engine: engine}
 	sc.RT = []string{"1rt", "1rt", "2rt-cache", "2rt-cache", "2rt-filecache"}[r.Intn(5)]
-	sc.Cfg = []string{"shared", "derived", "derived", "rw"}[r.Intn(4)]
+	// "bare": ONE configuration value without any mount, listener or stdio override, reused as it is for every
+	// instance (whatever a configuration caches between instantiations is then shared by all of them)
+	sc.Cfg = []string{"shared", "derived", "derived", "rw", "bare"}[r.Intn(5)]
 	sc.Concurrent = r.Intn(4) == 0
 	sc.Late = r.Intn(3) == 0
 	sc.N = 2 + r.Intn(3)
@@ -571,7 +577,7 @@ func genScenario(r *rand.Rand, id int, engine string, nops int) *scenario {
 }
 
 func modelled(sc *scenario) bool {
-	if sc.Cfg == "rw" {
+	if sc.Cfg == "rw" || sc.Cfg == "bare" {
 		return false
 	}
 	for _, ops := range sc.Ops {
